@@ -635,6 +635,23 @@ def check_upload(env, ref, project, drv, program, hits, returned=None):
 
 
 # =============================================================================
+def check_data_types(drv, ref, hits, who="first"):
+    """C05: `data_types` holds the structure definitions of THIS controller - none invented, each as the controller
+    defines it now"""
+    n = 0
+    dts = getattr(drv, "data_types", None)
+    if not isinstance(dts, dict):
+        return 0
+    for name in sorted(dts):
+        n += 1
+        if name in ref.types:
+            compare_type_def(ref, dts[name], name, hits, f"data_types of the {who} driver")
+        elif name != "STRING":
+            hits.hit("C05", "upload.types", f"data_types of the {who} driver lists {name!r}, which this controller does not define",
+                     what="invented")
+    return n
+
+
 def check_fo_route(env, path_text, hits, seen, who="first"):
     """C09: the route in every Forward Open's connection path decodes to the route the driver's path string names
     (bare address = backplane/slot 0; no route at all towards a Micro800)"""
@@ -725,6 +742,8 @@ def run_once(sc):
                 B["drv"] = harness.lib().LogixDriver(by["ip"])
             o_, r_ = harness.call(sim, B["drv"].open)
             calls += 1
+            if o_ == "ok" and r_ and not shared:
+                B["ever"] = B["drv"]
             if o_ == "ok" and r_ and shared:
                 B["drv"]._tags = drv.tags          # as documented in LogixDriver.__init__
             elif o_ == "ok" and r_:
@@ -909,6 +928,12 @@ def run_once(sc):
             if sim.blown:
                 hits.hit(sc.get("prop", "C01"), "budget", f"budget {sim.blown} blown during {kind}", what=sim.blown)
                 break
+    # (not after a changed program: a partial re-upload legitimately leaves the definitions it did not touch as they were)
+    if sc["driver"].get("init_tags", True) and any(x[0] == "open" and x[1] == "ok" for x in shape) \
+            and not any(o["kind"] == "mutate_project" for o in sc["ops"]):
+        evals["C05"] += 1 if check_data_types(drv, ref, hits) else 0
+    if envB is not None and envB is not env and B.get("ever"):
+        check_data_types(B["ever"], refB, envB.world.hits, "second")
     frames = world.frames_in
     if envB is not None and envB is not env:
         for h in envB.world.hits.items:
